@@ -152,7 +152,10 @@ def seq_delete(s, i):
     j = qvar("jd")
     ax = [seq_len(r) == seq_len(s.t) - 1,
           forall([j], seq_get(r, j) == ite(j < i, seq_get(s.t, j), seq_get(s.t, j + 1)),
-                    patterns=[seq_get(r, j)])]
+                    patterns=[seq_get(r, j)]),
+          # the same fact seen from the old sequence (selects on s instantiate it, so witnesses shift automatically)
+          forall([j], z3.Implies(j != i, seq_get(s.t, j) == ite(j < i, seq_get(r, j), seq_get(r, j - 1))),
+                    patterns=[seq_get(s.t, j)])]
     return V(r, s.s), ax
 
 
@@ -239,6 +242,10 @@ def none_of(sort):
 
 def coerce(v, sort):
     """adapt a value to an expected sort where Python would not notice the difference"""
+    if v.t is None and isinstance(v.s, SeqS) and isinstance(sort, SeqS):
+        return seq_empty(sort)          # [] whose element sort comes from the context
+    if v.t is None and isinstance(v.s, MapS) and isinstance(sort, MapS):
+        return map_empty(sort)
     if v.s == sort:
         return v
     if v.s == NONE:
